@@ -127,6 +127,9 @@ class SsbGraphMinimizer:
         outs = g.incident(jump, OUT)
         assert len(outs) == 1
         ov = g.es[outs[0]].target_vertex
+        if label.index == 0:
+            # The first vertex is where the routine is entered, it has to stay.
+            return []
         if isinstance(ov["op"], SsbLabel):
             # The jump target is just another label, redirect previous label to this one.
             ins = g.incident(label, IN)
